@@ -8,6 +8,8 @@
 //!   rec <Kind> <Type> <tree>   -> hex of try_serialize_record(value, kind)
 //!   dec <Type> <hex>           -> ok <tree> | reject
 //!   recdec <Type> <hex>        -> hdr-err | <Kind> ok <tree> | <Kind> reject   (from_record + try_deserialize_record)
+//!   recfail <Kind> <n>         -> err : try_serialize_record of an UNSERIALISABLE value (variant n, see `unserialisable`) under
+//!                                 that kind must fail and must have no effect on any later encode on the same thread
 //!   chunk <addr hex32> <value hex> -> serialise a Chunk carrying that (possibly forged) address, deserialise: recomputed|kept
 //! `dec`/`recdec` print `ok` only when the implementation accepts AND re-serialising the decoded value gives a prefix
 //! of the input (canonical acceptance); the model applies the same rule.  So: model accepts ⇒ implementation accepts
@@ -363,6 +365,45 @@ fn kinds_for(name: &str) -> &'static [RecordKind] {
     }
 }
 
+// ---------------------------------------------------------------- values the real serialiser refuses
+
+/// A value whose `Serialize` impl writes `0` fields successfully and then fails (what any user type may do).
+struct FailAfter(usize);
+impl Serialize for FailAfter {
+    fn serialize<S: serde::Serializer>(&self, s: S) -> Result<S::Ok, S::Error> {
+        use serde::ser::SerializeTuple;
+        let mut t = s.serialize_tuple(self.0 + 1)?;
+        for i in 0..self.0 {
+            t.serialize_element(&(i as u64 * 1000))?;
+        }
+        Err(serde::ser::Error::custom("refused"))
+    }
+}
+fn pre_epoch_quote(secs_before: u64) -> PaymentQuote {
+    let mut q = PaymentQuote::zero();
+    q.content = XorName([0xAB; 32]);
+    q.timestamp = SystemTime::UNIX_EPOCH - Duration::from_secs(secs_before); // serde: "SystemTime must be later than UNIX_EPOCH"
+    q
+}
+const N_UNSER: u64 = 6;
+/// try_serialize_record of the n-th unserialisable value; Ok(bytes) only if the serialiser unexpectedly accepts it
+fn unserialisable(n: u64, k: RecordKind) -> Result<Vec<u8>, String> {
+    let proof = |q: PaymentQuote| ProofOfPayment { peer_quotes: vec![(EncodedPeerId::from(PeerId::random()), q)] };
+    let r = match n {
+        0 => try_serialize_record(&(proof(pre_epoch_quote(1)), Chunk::new(Bytes::from_static(b"paid chunk"))), k),
+        1 => try_serialize_record(&pre_epoch_quote(86_400), k),
+        2 => {
+            let good = PaymentQuote::zero();
+            let p = ProofOfPayment { peer_quotes: vec![(EncodedPeerId::from(PeerId::random()), good), (EncodedPeerId::from(PeerId::random()), pre_epoch_quote(5))] };
+            try_serialize_record(&(p, Chunk::new(Bytes::from(vec![7u8; 300]))), k)
+        }
+        3 => try_serialize_record(&FailAfter(0), k),
+        4 => try_serialize_record(&FailAfter(3), k),
+        _ => try_serialize_record(&vec![FailAfter(40)], k),
+    };
+    r.map(|b| b.to_vec()).map_err(|e| format!("{e:?}"))
+}
+
 // ---------------------------------------------------------------- execution on the real code
 
 fn sha3_256(input: &[u8]) -> [u8; 32] {
@@ -438,6 +479,14 @@ fn exec(line: &str, tys: &[Ty]) -> String {
                     Err(e) => format!("bad-value {}", e.replace(char::is_whitespace, "_")),
                 })
             }
+            "recfail" => {
+                let k = kind_of(ws[1])?;
+                let n: u64 = ws[2].parse().ok()?;
+                Some(match unserialisable(n % N_UNSER, k) {
+                    Err(_) => "err".into(),
+                    Ok(b) => format!("accepted {}", hex(&b)),
+                })
+            }
             "dec" => {
                 let b = unhex(ws[2])?;
                 Some(match (ty(ws[1])?.dec)(&b) {
@@ -487,10 +536,12 @@ fn cbor_round_trip<T: Serialize + DeserializeOwned + PartialEq>(v: &T) -> bool {
     matches!(cbor4ii::serde::from_slice::<T>(&bytes), Ok(back) if back == *v)
 }
 
-fn oracle(line: &str, res: &str, out: &mut Out, tys: &[Ty]) {
+/// `input` is what a replay needs to reproduce the case: the op line itself, preceded by the failed encodes
+/// that ran just before it on this thread (joined with " ; ").
+fn oracle(line: &str, input: &str, res: &str, out: &mut Out, tys: &[Ty]) {
     let ws: Vec<&str> = line.split_whitespace().collect();
     if res == "panic" {
-        out.oracle_fail("decoders-never-panic", line, "implementation panicked");
+        out.oracle_fail("decoders-never-panic", input, "implementation panicked");
         return;
     }
     let ty = |n: &str| tys.iter().find(|t| t.name == n);
@@ -502,17 +553,17 @@ fn oracle(line: &str, res: &str, out: &mut Out, tys: &[Ty]) {
                 .position(|k| *k == ws[1]);
             if let Some(tag) = want {
                 if res != format!("91{tag:02x}") {
-                    out.oracle_fail("tag-fixed-and-two-bytes", line, &format!("header bytes {res}, expected 91{tag:02x}"));
+                    out.oracle_fail("tag-fixed-and-two-bytes", input, &format!("header bytes {res}, expected 91{tag:02x}"));
                 }
                 let back = exec(&format!("hdrdec {res}c0"), tys);
                 if back != format!("ok {}", ws[1]) {
-                    out.oracle_fail("header-round-trip", line, &format!("header {res} decodes as `{back}`"));
+                    out.oracle_fail("header-round-trip", input, &format!("header {res} decodes as `{back}`"));
                 }
             }
         }
         "enc" | "rec" => {
             if res.starts_with("bad-value") {
-                out.oracle_fail("harness-value-tree", line, res);
+                out.oracle_fail("harness-value-tree", input, res);
                 return;
             }
             // value round trip through the real decoder
@@ -524,15 +575,15 @@ fn oracle(line: &str, res: &str, out: &mut Out, tys: &[Ty]) {
             let tree_text = if ws[0] == "enc" { ws[2..].join(" ") } else { ws[3..].join(" ") };
             let want = if ws[0] == "enc" { format!("ok {tree_text}") } else { format!("{} ok {tree_text}", ws[1]) };
             if back != want {
-                out.oracle_fail("encode-decode-round-trip", line, &format!("{tyname}: decoding the encoded value gives `{}`", &back[..back.len().min(200)]));
+                out.oracle_fail("encode-decode-round-trip", input, &format!("{tyname}: decoding the encoded value gives `{}`", &back[..back.len().min(200)]));
             }
             if ws[0] == "rec" && !res.starts_with("91") {
-                out.oracle_fail("tag-fixed-and-two-bytes", line, "record does not start with the 2-byte header");
+                out.oracle_fail("tag-fixed-and-two-bytes", input, "record does not start with the 2-byte header");
             }
         }
         "chunk" => {
             if res != "recomputed" {
-                out.oracle_fail("chunk-address-recomputed", line, &format!("decoded chunk address: {res}"));
+                out.oracle_fail("chunk-address-recomputed", input, &format!("decoded chunk address: {res}"));
             }
         }
         "dec" | "recdec" => {
@@ -611,6 +662,15 @@ fn main() {
             v.push(format!("hdrdec {h}"));
         }
         v.push(format!("chunk {} {}", hex(&[0u8; 32]), hex(b"hello")));
+        // a failed encode must leave no trace in the next successful one on the same thread
+        for n in 0..N_UNSER {
+            let k = KINDS[(n as usize) % KINDS.len()];
+            v.push(format!("recfail {} {n}", kind_name(k)));
+            v.push(format!("rec Chunk Chunk {}", tree_of(&Chunk::new(Bytes::from(vec![n as u8 + 1; 5 + n as usize]))).text()));
+            v.push(format!("recfail {} {n}", kind_name(k)));
+            v.push(format!("recfail {} {}", kind_name(KINDS[(n as usize + 3) % 8]), (n + 1) % N_UNSER));
+            v.push(format!("chunk {} {}", hex(&[n as u8; 32]), hex(&[9u8, n as u8, 7])));
+        }
         let names: Vec<&str> = tys.iter().map(|t| t.name).collect();
         for _ in 0..args.n {
             match rng.below(20) {
@@ -671,6 +731,14 @@ fn main() {
                     let n = gen_len(&mut rng).min(3000);
                     v.push(format!("chunk {} {}", hex(&xor(&mut rng).0), hex(&rng.bytes(n))));
                 }
+                19 if rng.chance(1, 2) => {
+                    // failed encode(s), then a successful one of a random record type on the same thread
+                    for _ in 0..rng.range(1, 2) {
+                        v.push(format!("recfail {} {}", kind_name(*rng.pick(&KINDS)), rng.below(N_UNSER)));
+                    }
+                    let n = *rng.pick(&["Chunk", "PaidChunk", "Scratchpad", "PaidScratchpad", "Transactions", "PaidTransaction"]);
+                    v.push(format!("rec {} {n} {}", kind_name(kinds_for(n)[0]), gen_tree(&mut rng, n, false).text()));
+                }
                 _ => v.push(format!("hdrsweep {:02x}", rng.below(256))),
             }
         }
@@ -695,9 +763,12 @@ fn main() {
         }
         let _ = bad;
     }
-    for l in &lines {
+    for (i, l) in lines.iter().enumerate() {
         let r = exec(l, &tys);
-        oracle(l, &r, &mut out, &tys);
+        // failed encodes among the three preceding ops belong to the reproduction of this case
+        let from = (i.saturating_sub(3)..i).find(|j| lines[*j].starts_with("recfail")).unwrap_or(i);
+        let input = lines[from..=i].join(" ; ");
+        oracle(l, &input, &r, &mut out, &tys);
         let ws: Vec<&str> = l.split_whitespace().collect();
         let class = match ws[0] {
             "enc" => format!("enc:{}", ws[1]),
